@@ -976,6 +976,10 @@ func appendDiscipline(c *core.Ctx) {
 	}
 	coreFn, an, extra := recursiveCore(c, fn)
 	if coreFn == nil {
+		if handled, why := lookupDiscipline(c, fn, "append"); handled {
+			c.Check(why == "", "append-discipline", name, fn.Pos(), "lookup of the innermost open context (closed => nil; open last child first), then exactly one append there", "%s", why)
+			return
+		}
 		why := iterativeDiscipline(c, fn, "append")
 		c.Check(why == "", "append-discipline", name, fn.Pos(), "closed => false; descend while the last child is an open nested sequence; exactly one append there", "%s", why)
 		return
@@ -1113,6 +1117,10 @@ func unitDiscipline(c *core.Ctx) {
 	}
 	coreFn, an, extra := recursiveCore(c, fn)
 	if coreFn == nil {
+		if handled, why := lookupDiscipline(c, fn, "unit"); handled {
+			c.Check(why == "", "unit-discipline", name, fn.Pos(), "lookup of the innermost open context (closed => nil; open last child first), closed unless it is the root", "%s", why)
+			return
+		}
 		why := iterativeDiscipline(c, fn, "unit")
 		c.Check(why == "", "unit-discipline", name, fn.Pos(), "closed => false; descend while the last child is an open nested sequence; close it unless it is the root", "%s", why)
 		return
